@@ -48,6 +48,7 @@ type VirtualMachine struct {
 	loadedCode   map[*compiler.Code]*code
 	running      bool
 	concAllowed  bool
+	callDepth    int
 	runMutex     sync.Mutex
 	cloneMutex   sync.Mutex
 	tmp          [MaxArgs]object.Object
@@ -861,6 +862,15 @@ func (vm *VirtualMachine) callFunction(
 	if err := checkCallArgs(fn, argc); err != nil {
 		return nil, err
 	}
+
+	// Each call made from here nests another eval on the Go stack. Deferred
+	// calls run after their frame was released, so the frame limit alone
+	// does not bound them (func f() { defer f() }).
+	if vm.callDepth >= MaxFrameDepth {
+		return nil, errz.EvalErrorf("eval error: max call depth of %d exceeded", MaxFrameDepth)
+	}
+	vm.callDepth++
+	defer func() { vm.callDepth-- }()
 
 	baseFP := vm.fp
 	baseIP := vm.ip
